@@ -1,5 +1,124 @@
-(** C14 — property theorems. *)
+(** C14 — property theorems (statements; proofs are in C14/Proofs.v). *)
 From Coq Require Import List ZArith Bool Lia.
 From SV Require Import C14.Gen C14.Model C14.Proofs.
 Import ListNotations.
 Open Scope Z_scope.
+
+(** 1. Never over the peer's limits.  Whatever the windows (including windows a
+    SETTINGS shrink drove negative), the peer's max frame size and the queued
+    body, what one stream puts on the wire in a write pass is: DATA frames each
+    within [max_frame]; in total at most [max 0 (min stream_window
+    connection_window)] (so nothing when either window is <= 0); both windows
+    decrease by exactly that total (no byte escapes the books); no body byte is
+    lost.  Since every accepted WINDOW_UPDATE / SETTINGS adds exactly its
+    increment / delta to the same window ([overflow_is_error] below), the books
+    [window = credit granted - bytes sent] are preserved along every schedule. *)
+Theorem never_over_window :
+  forall fuel c x x' cw' frames,
+    0 <= max_frame c -> Forall (fun b => 0 <= b) (body x) ->
+    I32_MIN <= swin x <= I32_MAX -> I32_MIN <= cwin c <= I32_MAX ->
+    write_stream fuel c x = Some (x', cw', frames) ->
+    Forall (fun f => 0 <= f /\ f <= max_frame c) frames /\
+    0 <= sumz frames <= Z.max 0 (Z.min (swin x) (cwin c)) /\
+    swin x' = swin x - sumz frames /\ cw' = cwin c - sumz frames /\
+    sumz frames + sumz (body x') = sumz (body x) /\ sid x' = sid x.
+Proof. exact write_stream_sound. Qed.
+
+Example never_over_window_nonvacuous :
+  write_stream 100 (mkconn 20000 65535 16384 100 2 true [] false) (mkstream 1 65535 [40000]) =
+  Some (mkstream 1 45535 [20000], 0, [16384; 3616]) /\
+  write_stream 100 (mkconn 20000 65535 16384 100 2 true [] false) (mkstream 1 (-5) [40000]) =
+  Some (mkstream 1 (-5) [40000], 20000, []).
+Proof. vm_compute. split; reflexivity. Qed.
+
+(** 2. Zero increments and overflows are errors of the prescribed kind, and an
+    accepted update adds exactly its increment (connection: GOAWAY; stream:
+    RST_STREAM); SETTINGS_INITIAL_WINDOW_SIZE applies its delta to every
+    stream or is a connection error. *)
+Theorem overflow_is_error :
+  (forall c inc, 0 <= inc <= I32_MAX -> I32_MIN <= cwin c ->
+     match on_window_update c 0 inc with
+     | (_, GoAway ProtocolError) => inc = 0
+     | (_, GoAway FlowControlError) => inc <> 0 /\ I32_MAX < cwin c + inc
+     | (c', Continue) => inc <> 0 /\ cwin c' = cwin c + inc /\ cwin c' <= I32_MAX /\
+                         streams c' = streams c /\ (cwin c <= 0 -> 0 < cwin c' -> writable c' = true)
+     | (_, RstStream _ _) => False
+     end) /\
+  (forall c s inc x, s <> 0 -> 0 <= inc <= I32_MAX -> find_stream s (streams c) = Some x -> I32_MIN <= swin x ->
+     match on_window_update c s inc with
+     | (_, RstStream s' ProtocolError) => s' = s /\ inc = 0
+     | (_, RstStream s' FlowControlError) => s' = s /\ inc <> 0 /\ I32_MAX < swin x + inc
+     | (c', Continue) => inc <> 0 /\ swin x + inc <= I32_MAX /\ cwin c' = cwin c
+     | (_, GoAway _) => False
+     end) /\
+  (forall c v, 0 <= v ->
+     match on_settings_initial_window c v with
+     | (c', Continue) =>
+       v <= FLOW_CONTROL_MAX_WINDOW /\ init_win c' = v /\ cwin c' = cwin c /\
+       map sid (streams c') = map sid (streams c) /\
+       map swin (streams c') = map (fun x => swin x + (v - init_win c)) (streams c)
+     | (_, GoAway _) =>
+       FLOW_CONTROL_MAX_WINDOW < v \/
+       exists x, In x (streams c) /\ (I32_MAX < swin x + (v - init_win c) \/ swin x + (v - init_win c) < I32_MIN)
+     | (_, RstStream _ _) => False
+     end).
+Proof.
+  split; [exact window_update_conn|]. split; [exact window_update_stream|exact settings_initial_window_spec].
+Qed.
+
+Example overflow_is_error_nonvacuous :
+  snd (on_window_update (conn_new true) 0 2147418113) = GoAway FlowControlError /\
+  snd (on_window_update (conn_new true) 0 2147418112) = Continue /\
+  snd (on_window_update (conn_new true) 0 0) = GoAway ProtocolError.
+Proof. vm_compute. repeat split; reflexivity. Qed.
+
+(** 3. Identifiers: 31 bits, strictly above everything issued before, parity of
+    the role from an even watermark, [None] once the space is exhausted; new
+    streams only while fewer than the peer's MAX_CONCURRENT_STREAMS are open. *)
+Theorem ids_legal :
+  (forall last client issued next, 0 <= last -> next_stream_id last client = Some (issued, next) ->
+     next = last + 2 /\ 0 <= issued <= STREAM_ID_MAX /\ last - 0 <= issued + 0 /\ issued < next /\
+     (Z.even last = true -> Z.odd issued = client)) /\
+  (forall last client, STREAM_ID_MAX + 1 <= last -> next_stream_id last client = None) /\
+  (forall c w chunks c' r, start_stream c w chunks = (c', r) ->
+     (r <> None -> Z.of_nat (length (streams c)) < max_conc c /\ length (streams c') = S (length (streams c))) /\
+     (r = None -> c' = c)).
+Proof.
+  split; [exact next_stream_id_spec|]. split; [exact next_stream_id_exhausted|exact start_stream_bound].
+Qed.
+
+Example ids_legal_nonvacuous :
+  next_stream_id 0 true = Some (1, 2) /\ next_stream_id 2147483646 true = Some (2147483647, 2147483648) /\
+  next_stream_id 2147483648 true = None.
+Proof. vm_compute. repeat split; reflexivity. Qed.
+
+(** 4. Progress.  With both windows positive, a legal max frame size and bytes
+    left, a write pass emits at least one DATA byte and strictly reduces what
+    is left (no zero-length spin, no stall with positive credit); every
+    transition of a window from <= 0 to > 0 arms WRITABLE (theorem 2).
+    Full statement (whole body sent under any legal eventually-sufficient
+    schedule, by induction on the bytes left) follows from this measure
+    decrease for chunk lists whose entries are positive; the iteration itself is
+    not mechanised: [progress] is the step it rests on. *)
+Theorem progress :
+  forall fuel c x b rest x' cw' frames,
+    body x = b :: rest -> 0 < b -> Forall (fun k => 0 <= k) rest ->
+    0 < swin x <= I32_MAX -> 0 < cwin c <= I32_MAX -> 0 < max_frame c -> (0 < fuel)%nat ->
+    write_stream fuel c x = Some (x', cw', frames) ->
+    sumz (body x') < sumz (body x) /\ 0 < sumz frames.
+Proof. exact progress_round. Qed.
+
+Example progress_nonvacuous :
+  write_stream 10 (mkconn 1 65535 16384 100 2 true [] false) (mkstream 1 1 [70000]) =
+  Some (mkstream 1 0 [69999], 0, [1]).
+Proof. vm_compute. reflexivity. Qed.
+
+(** 5. Receiver: coalesced WINDOW_UPDATE increments stay legal (1 .. 2^31-1). *)
+Theorem replenish_legal :
+  forall cap q s inc, 0 < inc -> Forall (fun e => 0 < snd e <= I32_MAX) q ->
+    Forall (fun e => 0 < snd e <= I32_MAX) (queue_window_update cap q s inc).
+Proof. exact queue_window_update_legal. Qed.
+
+Example replenish_legal_nonvacuous :
+  queue_window_update 3 [(1, 10); (3, 2147483000)] 3 70000 = [(1, 10); (3, 2147483647)].
+Proof. vm_compute. reflexivity. Qed.
